@@ -12,34 +12,38 @@ namespace Geo
 /-- index components of the finite table -/
 def ixAlphabet : List Ix := [.int, .slice, .none, .ellipsis, .arr 1 false, .arr 1 true, .arr 2 true, .mask 1, .mask 2]
 
-/-- the fragment on which code and NumPy agree: no boolean mask with ≥ 2 dimensions; no integer together with an
-    array index; no `None` together with an array index (the three recorded findings KF-C19-1/2/3) -/
-def inFragment (idx : List Ix) : Bool :=
-  let hasArr := idx.any Ix.isArray
-  !(idx.any fun c => match c with | .mask k => decide (k ≥ 2) | _ => false) &&
-  !(hasArr && idx.contains Ix.int) && !(hasArr && idx.contains Ix.none)
-
-/-- finite table, complete (kernel-evaluated): every index expression with at most 3 components over the alphabet,
-    every rank ≤ 4: on the fragment, whenever NumPy accepts the index, the code's mapping is NumPy's -/
+/-- finite tables, complete (kernel-evaluated): every index expression with at most 4 components over the alphabet,
+    every rank ≤ 4: whenever NumPy accepts the index, the code's mapping is NumPy's.  (Before the repair of
+    `_get_index_mapping` — /repo commit 7e7377a — this held only on a fragment: no mask with ≥ 2 dimensions, no integer
+    or `None` together with an index array; the three counterexamples were the findings KF-C19-1/2/3.) -/
 theorem T19_index_table_1 : ∀ r ∈ [1, 2, 3, 4], ∀ a ∈ ixAlphabet,
-    inFragment [a] = true → (numpyAxes r [a]).isSome = true → indexMapping r [a] = numpyAxes r [a] := by
+    (numpyAxes r [a]).isSome = true → indexMapping r [a] = numpyAxes r [a] := by
   decide +kernel
 
 theorem T19_index_table_2 : ∀ r ∈ [1, 2, 3, 4], ∀ a ∈ ixAlphabet, ∀ b ∈ ixAlphabet,
-    inFragment [a, b] = true → (numpyAxes r [a, b]).isSome = true → indexMapping r [a, b] = numpyAxes r [a, b] := by
+    (numpyAxes r [a, b]).isSome = true → indexMapping r [a, b] = numpyAxes r [a, b] := by
   decide +kernel
 
 theorem T19_index_table_3 : ∀ r ∈ [1, 2, 3, 4], ∀ a ∈ ixAlphabet, ∀ b ∈ ixAlphabet, ∀ c ∈ ixAlphabet,
-    inFragment [a, b, c] = true → (numpyAxes r [a, b, c]).isSome = true →
-      indexMapping r [a, b, c] = numpyAxes r [a, b, c] := by
+    (numpyAxes r [a, b, c]).isSome = true → indexMapping r [a, b, c] = numpyAxes r [a, b, c] := by
   decide +kernel
 
-/-- outside the fragment the statement is false of the code: kernel-checked counterexamples (replayed on the
-    implementation by the correspondence, recorded as KF-C19-1/2/3) -/
-theorem T19_index_counterexamples :
-    indexMapping 3 [.int, .arr 1 false] ≠ numpyAxes 3 [.int, .arr 1 false] ∧
-    indexMapping 3 [.mask 2] ≠ numpyAxes 3 [.mask 2] ∧
-    indexMapping 3 [.mask 1, .none, .arr 1 false] ≠ numpyAxes 3 [.mask 1, .none, .arr 1 false] := by
+/-- four components: reduced alphabet (list / ndarray index arrays and 1-D masks behave like `arr 1`), rank 4
+    (kernel evaluation costs about 40 ms per expression; longer expressions are left to the correspondence) -/
+def ixAlphabet4 : List Ix := [.int, .slice, .none, .ellipsis, .arr 1 true, .mask 2]
+
+theorem T19_index_table_4 : ∀ r ∈ [4], ∀ a ∈ ixAlphabet4, ∀ b ∈ ixAlphabet4, ∀ c ∈ ixAlphabet4, ∀ d ∈ ixAlphabet4,
+    (numpyAxes r [a, b, c, d]).isSome = true → indexMapping r [a, b, c, d] = numpyAxes r [a, b, c, d] := by
+  decide +kernel
+
+/-- the former counterexamples now agree (kept as regression statements) -/
+theorem T19_index_former_counterexamples :
+    indexMapping 3 [.int, .arr 1 false] = numpyAxes 3 [.int, .arr 1 false] ∧
+    indexMapping 3 [.mask 2] = numpyAxes 3 [.mask 2] ∧
+    indexMapping 3 [.mask 1, .none, .arr 1 false] = numpyAxes 3 [.mask 1, .none, .arr 1 false] ∧
+    -- an Ellipsis that stands for no axis still separates advanced indices
+    numpyAxes 3 [.slice, .int, .ellipsis, .arr 1 true] = some [none, some 0] ∧
+    indexMapping 3 [.slice, .int, .ellipsis, .arr 1 true] = some [none, some 0] := by
   decide +kernel
 
 private theorem mem_filter_zipIdx {β : Type} (l : List β) (P : β → Bool) (k : Nat) :
